@@ -118,10 +118,13 @@ Proof.
   exact (insert_spec H W sh w data Hrep Hlen (N.to_nat r) (N.to_nat c) items).
 Qed.
 
-Theorem C07_insert_index_overflow_panics :
+(* beyond: no window has such a position; the debug build panics before anything is written, except
+   that nothing happens at exactly usize::MAX with no item to write (Lemma: the case split of insert_at) *)
+Lemma C07_insert_index_at_or_beyond_usize_max :
   forall (A : Type) (sh : shape) (data : list A) (r c : N) (items : list A),
-  (18446744073709551616 <= r * N.of_nat (sh_width sh) + c)%N -> insert_at sh data r c items = None.
-Proof. intros A sh data r c items Hb. exact (insert_at_overflow sh data r c items Hb). Qed.
+  (18446744073709551615 <= r * N.of_nat (sh_width sh) + c)%N ->
+  insert_at sh data r c items = None \/ insert_at sh data r c items = Some data.
+Proof. intros A sh data r c items Hb. exact (insert_at_beyond sh data r c items Hb). Qed.
 
 (* non-vacuity: the chain of test_chains (10x10, view(.., ..), view(1..-1, ..), view(.., 1..-1))
    and a transposed one; both satisfy the hypotheses *)
